@@ -134,6 +134,14 @@ class SymMode:
     def time_eps(self, eps):
         SymTime.EPS = eps.e if isinstance(eps, SNum) else eps
 
+    def concretize(self, term):
+        """value of an Int term that the path condition already determines (forks if it does not)"""
+        return self.ctx.choose_int(term)
+
+    def decide(self, cond):
+        """truth of a condition under the path condition (forks the path if both are feasible)"""
+        return self.ctx.branch(cond.e if isinstance(cond, SBool) else cond)
+
 
 class ConcMode:
     symbolic = False
@@ -223,6 +231,12 @@ class ConcMode:
 
     def time_eps(self, eps):
         pass
+
+    def concretize(self, term):
+        return int(evalz(term, self.env, self.ufs))
+
+    def decide(self, cond):
+        return bool(evalz(cond.e if isinstance(cond, SBool) else cond, self.env, self.ufs))
 
 
 # ---------------------------------------------------------------------------
